@@ -75,6 +75,8 @@ type FV struct {
 	canaries bool
 	retCount int
 	exitCell string
+	extraPrelude string
+	globals  []string
 	strict   bool // reading a cell that is not bound is an error (definitional axioms)
 }
 
@@ -156,7 +158,17 @@ func (fv *FV) get(st *State, cell string, s Sort) string {
 		}
 	}
 	fv.cellSort[cell] = s
-	return fv.decl(cell+"@0", s)
+	q := sym(cell + "@0")
+	if !fv.declared[q] {
+		fv.decl(cell+"@0", s)
+		// entry value of a variable (captured or global): the facts of its type hold
+		if t, ok := fv.cellType[cell]; ok && t != nil && strings.HasPrefix(cell, "v!") {
+			if f := fv.typeFacts(t, q, fv.entry); f != "true" {
+				fv.globals = append(fv.globals, fmt.Sprintf("(assert %s)", f))
+			}
+		}
+	}
+	return q
 }
 
 func (fv *FV) set(st *State, cell string, s Sort, term string) {
@@ -689,6 +701,9 @@ func (fv *FV) execBlock(b *Block, st *State, edges map[edgeKey]*State, region ma
 	case TReturn:
 		fv.doReturn(b, st)
 	case TPanic:
+		if fv.u.PanicIsExit {
+			break
+		}
 		fv.oblige(st, "safety", fmt.Sprintf("safety[%d]", fv.ordinal("safety")), "false", "explicit panic is unreachable", b.Pos, nil)
 	}
 }
@@ -843,10 +858,10 @@ func (fv *FV) checkFrame(st *State, pos token.Pos) {
 			continue
 		}
 		old := sym(cell + "@0")
-		goal := fmt.Sprintf("(forall ((r! Int)) (! (=> (and (< 0 r!) (< r! %s) %s) (= %s %s)) :pattern (%s)))",
+		goal := fmt.Sprintf("(forall ((r! Int)) (! (=> (and (<= 0 r!) (< r! %s) %s) (= %s %s)) :pattern (%s)))",
 			allocOld, not(inFoot), sel(cur, "r!"), sel(old, "r!"), sel(cur, "r!"))
 		if strings.HasPrefix(cell, "E!") || strings.HasPrefix(cell, "M") {
-			goal = fmt.Sprintf("(forall ((r! Int)) (! (=> (and (< 0 r!) (< r! %s) %s) (= %s %s)) :pattern (%s)))",
+			goal = fmt.Sprintf("(forall ((r! Int)) (! (=> (and (<= 0 r!) (< r! %s) %s) (= %s %s)) :pattern (%s)))",
 				allocOld, not(inFoot), sel(cur, "r!"), sel(old, "r!"), sel(cur, "r!"))
 		}
 		fv.oblige(st, "assigns", fmt.Sprintf("assigns[%s].%d", fname, fv.ordinal("assigns."+fname)), goal,
@@ -963,7 +978,7 @@ func (fv *FV) conjuncts(e ast.Expr, cx *Cx) []conjunct {
 						return
 					}
 				}
-				if pd, ok := fv.u.CS.Preds[id.Name]; ok && len(pd.Params) == len(x.Args) {
+				if pd, ok := fv.u.CS.Preds[id.Name]; ok && len(pd.Params) == len(x.Args) && !fv.u.NoSplit[id.Name] {
 					env := map[string]TV{}
 					for k, v := range cx.env {
 						env[k] = v
